@@ -10,6 +10,8 @@ import (
 	"sync"
 	"time"
 
+	lisp "github.com/jig/lisp"
+	"github.com/jig/lisp/debuggertypes"
 	"github.com/jig/lisp/types"
 
 	"verifharness/fw"
@@ -198,6 +200,22 @@ func runC08(c *fw.Ctx) {
 				defer cf2()
 				used["ctx-child-of-deadline"] = true
 			}
+			if i%4 == 3 {
+				// history: a debugger was attached earlier in this process, stepped through one evaluation with one
+				// of the four commands and was detached again; tail calls made afterwards must not remember it
+				// (seeded C08-m13: a flag set while stepping and never cleared)
+				cmd := []debuggertypes.Command{debuggertypes.NoOp, debuggertypes.Next, debuggertypes.In, debuggertypes.Out}[(i/4)%4]
+				consulted := 0
+				lisp.Stepper = func(types.MalType, types.EnvType) debuggertypes.Command { consulted++; return cmd }
+				o := hx.EvalText(context.Background(), "(do (let [a 1] (if a (+ a 1) 0)) ((fn [x] (do x)) 2))", env)
+				lisp.Stepper = nil
+				if o.Err != nil || o.Panicked || consulted == 0 {
+					c.Violate(fw.Violation{Key: "harness", What: fmt.Sprint("the stepped warm-up evaluation failed or never consulted the stepper: ", o.Err, o.PanicMsg, " consulted=", consulted)})
+					return
+				}
+				used["after-stepper-detached"] = true
+				c.Count("stepper_consultations_before_detaching", consulted)
+			}
 			if o := hx.EvalText(context.Background(), defs, env); o.Err != nil || o.Panicked {
 				c.Violate(fw.Violation{Key: "shape-rejected", What: fmt.Sprint("definitions failed: ", o.Err, o.PanicMsg)})
 				return
@@ -308,6 +326,9 @@ func c08Key(used map[string]bool) string {
 	pre := ""
 	if used["ctx-with-deadline"] || used["ctx-child-of-deadline"] {
 		pre = "deadline-ctx:"
+	}
+	if used["after-stepper-detached"] {
+		pre = "after-stepper-detached:" + pre
 	}
 	for _, k := range []string{"def-via-macro", "def-via-eval-of-list", "def-via-read-string"} {
 		if used[k] {
